@@ -11,6 +11,7 @@ import (
 	"strings"
 	"syscall"
 	"testing"
+	"testing/fstest"
 	"time"
 
 	"github.com/tetratelabs/wazero"
@@ -42,10 +43,13 @@ type WCase struct {
 	Engine       string `json:"engine"`
 	N            int    `json:"n"`
 	Ops          []WOp  `json:"ops"`
+	BaseMounts   int    `json:"base_mounts,omitempty"`        // every guest's FSConfig is derived from one common FSConfig with this many immutable in-memory mounts; the private directory is mounted after them
 	SharedStdout bool   `json:"shared_stdout_file,omitempty"` // every guest gets the same *os.File as stdout (the embedder's file must survive a guest's fd_close(1) / module close)
 }
 
 type wguest struct {
+	mc     wazero.ModuleConfig
+	root   uint64 // descriptor of the private pre-opened directory (3 + number of common mounts)
 	closed bool
 	p      *wasiproxy.Proxy
 	dir    string
@@ -88,22 +92,25 @@ func wTimeName(ns uint64) string {
 	return "other" // a time taken from the host clock when an entry was created or written
 }
 
-func newGuest(ctx context.Context, rt wazero.Runtime, base string, i int, shared *os.File) (*wguest, error) {
-	g := &wguest{dir: base}
+func newGuest(ctx context.Context, rt wazero.Runtime, base string, i int, shared *os.File, common wazero.FSConfig, ncommon int) (*wguest, error) {
+	g := &wguest{dir: base, root: 3 + uint64(ncommon)}
 	if err := wpopulate(base); err != nil {
 		return nil, err
 	}
 	mc := wazero.NewModuleConfig().WithName("").WithArgs("guest", fmt.Sprint(i)).WithEnv("ID", fmt.Sprint(i)).
-		WithStdout(&g.so).WithStderr(&g.se).WithFSConfig(wazero.NewFSConfig().WithDirMount(base, "/"))
+		WithStdout(&g.so).WithStderr(&g.se).WithFSConfig(common.WithDirMount(base, "/"))
 	if shared != nil {
 		mc = mc.WithStdout(shared)
 	}
-	p, err := wasiproxy.New(ctx, rt, mc, 1, -1)
-	if err != nil {
-		return nil, err
-	}
-	g.p = p
+	g.mc = mc
 	return g, nil
+}
+
+// start instantiates the guest; all guests' configurations are derived before the first one starts.
+func (g *wguest) start(ctx context.Context, rt wazero.Runtime) error {
+	p, err := wasiproxy.New(ctx, rt, g.mc, 1, -1)
+	g.p = p
+	return err
 }
 
 // inoNames maps inode numbers of the guest's directory tree to relative paths.
@@ -155,6 +162,19 @@ func (g *wguest) filestat(off uint32) string {
 // do executes one op and appends its trace line.
 func (g *wguest) do(ctx context.Context, op WOp) string {
 	p := g.p
+	// the generator's descriptor numbers assume the private directory is descriptor 3
+	shift := func(v int64) int64 {
+		if v >= 3 {
+			return v + int64(g.root) - 3
+		}
+		return v
+	}
+	switch op.K {
+	case "read", "write", "seek", "tell", "close", "filestat", "fdstat", "prestat", "settimes", "readdir":
+		op.A = shift(op.A)
+	case "renumber":
+		op.A, op.B = shift(op.A), shift(op.B)
+	}
 	line := func(e uint32, o wz.Outcome, f string, a ...any) {
 		s := fmt.Sprintf("%s(%d,%d,%d,%q) -> ", op.K, op.A, op.B, op.C, op.S)
 		if o.Kind != wz.KOK {
@@ -172,7 +192,7 @@ func (g *wguest) do(ctx context.Context, op WOp) string {
 	switch op.K {
 	case "open":
 		pp, pl := g.putPath(op.S)
-		e, o = p.Call(ctx, "path_open", 3, 1, pp, pl, uint64(op.A), 0x1fffffff, 0x1fffffff, uint64(op.B), wRes)
+		e, o = p.Call(ctx, "path_open", g.root, 1, pp, pl, uint64(op.A), 0x1fffffff, 0x1fffffff, uint64(op.B), wRes)
 		line(e, o, "fd=%d", g.u32(wRes))
 	case "read", "write":
 		var iov [8]byte
@@ -207,21 +227,21 @@ func (g *wguest) do(ctx context.Context, op WOp) string {
 		line(e, o, "")
 	case "mkdir":
 		pp, pl := g.putPath(op.S)
-		e, o = p.Call(ctx, "path_create_directory", 3, pp, pl)
+		e, o = p.Call(ctx, "path_create_directory", g.root, pp, pl)
 		line(e, o, "")
 	case "settimes":
 		e, o = p.Call(ctx, "fd_filestat_set_times", uint64(op.A), uint64(wTimes[op.B%int64(len(wTimes))]), uint64(wTimes[op.C%int64(len(wTimes))]), 1|4)
 		line(e, o, "")
 	case "pathsettimes":
 		pp, pl := g.putPath(op.S)
-		e, o = p.Call(ctx, "path_filestat_set_times", 3, 1, pp, pl, uint64(wTimes[op.B%int64(len(wTimes))]), uint64(wTimes[op.C%int64(len(wTimes))]), 1|4)
+		e, o = p.Call(ctx, "path_filestat_set_times", g.root, 1, pp, pl, uint64(wTimes[op.B%int64(len(wTimes))]), uint64(wTimes[op.C%int64(len(wTimes))]), 1|4)
 		line(e, o, "")
 	case "filestat":
 		e, o = p.Call(ctx, "fd_filestat_get", uint64(op.A), wRes+64)
 		line(e, o, "%s", g.filestat(wRes+64))
 	case "pathstat":
 		pp, pl := g.putPath(op.S)
-		e, o = p.Call(ctx, "path_filestat_get", 3, uint64(op.A&1), pp, pl, wRes+64)
+		e, o = p.Call(ctx, "path_filestat_get", g.root, uint64(op.A&1), pp, pl, wRes+64)
 		line(e, o, "%s", g.filestat(wRes+64))
 	case "fdstat":
 		e, o = p.Call(ctx, "fd_fdstat_get", uint64(op.A), wRes)
@@ -365,17 +385,30 @@ func runWasi(c *WCase, only int) (map[int][]string, string) {
 		defer f.Close()
 		shared = f
 	}
+	// the configuration all guests' file systems are derived from (documented as immutable: deriving
+	// one guest's configuration from it must not be visible to the guests derived before or after)
+	common := wazero.NewFSConfig()
+	for k := 0; k < c.BaseMounts; k++ {
+		common = common.WithFSMount(fstest.MapFS{"shared.txt": &fstest.MapFile{Data: []byte("ro")}}, fmt.Sprintf("/common%d", k))
+	}
 	for i := 0; i < c.N; i++ {
 		if only >= 0 && i != only {
 			continue
 		}
 		d := wdir()
 		dirs = append(dirs, d)
-		g, err := newGuest(ctx, rt, d, i, shared)
+		g, err := newGuest(ctx, rt, d, i, shared, common, c.BaseMounts)
 		if err != nil {
 			return nil, "harness: " + err.Error()
 		}
 		guests[i] = g
+	}
+	for i := 0; i < c.N; i++ {
+		if g := guests[i]; g != nil {
+			if err := g.start(ctx, rt); err != nil {
+				return nil, "harness: " + err.Error()
+			}
+		}
 	}
 	for _, op := range c.Ops {
 		g := guests[op.Inst]
@@ -485,6 +518,7 @@ func genWOp(t *rapid.T, n int) WOp {
 func propWasi(t *rapid.T) {
 	c := &WCase{Engine: rapid.SampledFrom(wz.Engines).Draw(t, "engine"), N: rapid.IntRange(2, 3).Draw(t, "n")}
 	c.SharedStdout = rapid.IntRange(0, 2).Draw(t, "sharedstdout") == 0
+	c.BaseMounts = rapid.SampledFrom([]int{0, 0, 1, 2, 3, 3, 5}).Draw(t, "basemounts")
 	n := rapid.IntRange(3, 24).Draw(t, "nops")
 	for i := 0; i < n; i++ {
 		op := genWOp(t, c.N)
@@ -508,13 +542,16 @@ func propWasi(t *rapid.T) {
 	if c.SharedStdout {
 		lbl = append(lbl, "wasi-shared-stdout-file")
 	}
+	if c.BaseMounts > 0 {
+		lbl = append(lbl, "wasi-fsconfig-derived-from-common-base")
+	}
 	for _, op := range c.Ops {
 		if op.K == "readdir" {
 			lbl = append(lbl, "wasi-readdir")
 			break
 		}
 	}
-	evid.Case(evid.Hash64("wasi", c.Engine, c.N, c.SharedStdout, fmt.Sprint(c.Ops)), nt, lbl...)
+	evid.Case(evid.Hash64("wasi", c.Engine, c.N, c.SharedStdout, c.BaseMounts, fmt.Sprint(c.Ops)), nt, lbl...)
 	if nt {
 		evid.Sample("wasi-history", 2, c)
 	}
